@@ -8,6 +8,10 @@ open Tw.Packet Tw.Packet6 Tw.Drv
 
 def tbl : Tw.Huffman.Table := Tw.Gen.Huffman.table
 
+/-- the Huffman decoder the reader is evaluated with: `decompressFast`, equal to the model's `decompress`
+(`Tw.Huffman.decompressFast_eq`; `Tw.Packet6.readWith_fast` : `readWith fastDec = read tbl`) -/
+def fastDec : List UInt8 → Nat → Tw.Huffman.DecResult := Tw.Huffman.decompressFast tbl
+
 def wsStr (ws : List Warning) : String := listStr (ws.map Warning.name)
 
 def tokStr : Option Token → String
@@ -206,7 +210,7 @@ partial def hashRead (hint : Option Bool) (cap : Nat) (pre : List UInt8) (lo hi 
     for k in [0:total] do
       let mid := (List.range nrest).map fun j => UInt8.ofNat (k / 256 ^ (nrest - 1 - j))
       let bs := pre ++ [UInt8.ofNat x] ++ mid ++ suf
-      h := hashLine h (readLine (read tbl bs hint (some cap)))
+      h := hashLine h (readLine (readWith fastDec bs hint (some cap)))
   return h
 
 def parseVital (s : String) : Option (Option (Nat × Bool)) :=
@@ -275,11 +279,11 @@ def handle (toks : List String) : String :=
     | _, _, _ => "bad-op"
   | ["read", hint, cap, h] =>
     match parseHint hint, parseNat cap, parseHex h with
-    | some hint, some cap, some bs => readLine (read tbl bs hint (some cap))
+    | some hint, some cap, some bs => readLine (readWith fastDec bs hint (some cap))
     | _, _, _ => "bad-op"
   | ["readp", hint, h] =>
     match parseHint hint, parseHex h with
-    | some hint, some bs => readLine (read tbl bs hint none)
+    | some hint, some bs => readLine (readWith fastDec bs hint none)
     | _, _ => "bad-op"
   | ["hash_read", hint, cap, pre, lo, hi, nrest, suf] =>
     match parseHint hint, parseNat cap, parseHex pre, parseNat lo, parseNat hi, parseNat nrest, parseHex suf with
@@ -289,7 +293,7 @@ def handle (toks : List String) : String :=
   | ["din", cap, h] =>
     match parseNat cap, parseHex h with
     | some cap, some bs =>
-      match decompressIfNeeded tbl bs cap with
+      match decompressIfNeededWith fastDec bs cap with
       | .ok false _ => "ok 0"
       | .ok true s => s!"ok 1 {toHex s}"
       | .err => "err"
